@@ -28,7 +28,11 @@ class Env:
     def driver(self, variant=None):
         variant = variant or next(iter(self.builds))
         if variant not in self._drv:
-            self._drv[variant] = drv.Driver(self.run, self.builds[variant], **self.kw)
+            # a build entry may carry driver arguments of its own (the same library in a different environment)
+            kw = dict(self.kw)
+            for k, v in (self.builds[variant].get("driver_kwargs") or {}).items():
+                kw[k] = dict(kw.get(k) or {}, **v) if isinstance(v, dict) else v
+            self._drv[variant] = drv.Driver(self.run, self.builds[variant], **kw)
         return self._drv[variant]
 
     def close(self):
